@@ -135,10 +135,11 @@ def ensure_gen():
     """regenerate coq/Gen.v (in the build copy) from the current sources"""
     gd = os.path.join(BUILD, "gen")
     os.makedirs(gd, exist_ok=True)
-    key = file_hash(repo_sources() + [os.path.join(VERIF, "harness", "gen_dump.c")])
+    key = file_hash(repo_sources() + [os.path.join(VERIF, "harness", "gen_dump.c"), os.path.join(VERIF, "tools", "cleaf.py")])
     stamp = os.path.join(gd, "stamp")
     genv = os.path.join(COQB, "Gen.v")
-    if os.path.exists(stamp) and open(stamp).read() == key and os.path.exists(genv):
+    if os.path.exists(stamp) and open(stamp).read() == key and os.path.exists(genv) \
+            and os.path.exists(os.path.join(COQB, "GenLeaf.v")):
         return
     try:
         os.remove(stamp)      # a failure below must not leave a stale Gen.v marked valid
@@ -200,6 +201,14 @@ def ensure_gen():
             + out_main + "\n" + out_n)
     os.makedirs(COQB, exist_ok=True)
     write_if_changed(genv, text)
+    # the leaf functions, translated from clang's typed AST (tools/cleaf.py)
+    tmp = os.path.join(gd, "GenLeaf.v")
+    rc, o, e = sh([sys.executable, os.path.join(VERIF, "tools", "cleaf.py"), REPO, tmp], timeout=300)
+    with open(os.path.join(gd, "leaf_errors.txt"), "w") as f:
+        f.write(o + e)
+    if not os.path.exists(tmp):
+        raise BuildError("cleaf", (o + e)[-3000:])
+    write_if_changed(os.path.join(COQB, "GenLeaf.v"), open(tmp).read())
     with open(stamp, "w") as f:
         f.write(key)
 
@@ -212,12 +221,12 @@ def sync_coq():
     src = os.path.join(VERIF, "coq")
     names = set()
     for fn in os.listdir(src):
-        if fn.endswith(".v") and fn != "Gen.v" or fn == "_CoqProject":
+        if fn.endswith(".v") and fn not in ("Gen.v", "GenLeaf.v") or fn == "_CoqProject":
             names.add(fn)
             text = open(os.path.join(src, fn)).read()
             write_if_changed(os.path.join(COQB, fn), text)
     for fn in os.listdir(COQB):
-        if fn.endswith(".v") and fn != "Gen.v" and fn not in names:
+        if fn.endswith(".v") and fn not in ("Gen.v", "GenLeaf.v") and fn not in names:
             os.remove(os.path.join(COQB, fn))
     if not os.path.exists(os.path.join(COQB, "Makefile.coq")) or \
             os.path.getmtime(os.path.join(COQB, "Makefile.coq")) < os.path.getmtime(os.path.join(COQB, "_CoqProject")):
